@@ -28,7 +28,7 @@ _OBLS = []
 
 # ~4.5e6 resource units per second of z3 work on the quantified VCs generated here (measured).
 R_QUICK = 1_500_000       # path-feasibility checks during symbolic execution (~0.3 s)
-R1 = 30_000_000           # per portfolio attempt in phase 1 (~6 s of z3 work when the machine is idle)
+R1 = 50_000_000           # per portfolio attempt in phase 1 (~10 s of z3 work when the machine is idle)
 R2_PER_S = 5_000_000      # phase 2: timeout_s * R2_PER_S
 
 
